@@ -45,7 +45,7 @@ thread_local! {
     pub static TID: std::cell::Cell<Option<usize>> = const { std::cell::Cell::new(None) };
 }
 
-fn tid() -> Option<usize> {
+pub fn tid() -> Option<usize> {
     TID.with(|t| t.get())
 }
 
@@ -79,6 +79,12 @@ pub fn yield_point(desc: &str) -> bool {
         }
         g = SCHED.cv.wait(g).unwrap();
     }
+}
+
+thread_local! {
+    /// when set, the next successful strong CAS of this thread is immediately followed by this call (used to
+    /// bracket a guard that lives entirely inside library code, e.g. the one `impl Debug for Mutex` takes)
+    pub static ON_CAS_OK: std::cell::Cell<Option<fn()>> = std::cell::Cell::new(None);
 }
 
 pub fn log(ev: String) {
@@ -187,6 +193,11 @@ pub mod atomic {
             if sched {
                 let (tag, old) = match r { Ok(v) => ("ok", v), Err(v) => ("fail", v) };
                 log(format!("{} cas{} {}/{} {}>{} {}{}", tid().unwrap(), self.loc(), o(s), o(f), cur, new, tag, old));
+                if r.is_ok() {
+                    if let Some(f) = ON_CAS_OK.with(|c| c.take()) {
+                        f();
+                    }
+                }
             }
             r
         }
